@@ -56,6 +56,8 @@ type StepCfg struct {
 	// sentinel is taken only after the message before it has been served completely.
 	// Use when application type handlers may refuse (which would skip a barrier handler).
 	SentinelBarrier bool
+	// OptsMod, when set, may change the session options before the session is constructed (option combinations).
+	OptsMod func(o *session.Opts)
 }
 
 // Timeouts counts watchdog expiries of all step rigs in this process.
@@ -79,6 +81,7 @@ type Out struct {
 
 // StepResult is what one step produced and the state sampled after it.
 type StepResult struct {
+	StateLocked bool // IsLogged() did not return within 2 s
 	Outs     []Out
 	Logged   bool
 	CtxErr   error
@@ -140,6 +143,10 @@ func NewStepRig(cfg StepCfg) (*StepRig, error) {
 	ctx, cancel := context.WithCancel(context.Background())
 	r.cancel = cancel
 	var err error
+	opts := Opts()
+	if cfg.OptsMod != nil {
+		cfg.OptsMod(opts)
+	}
 	if cfg.Role == Acceptor {
 		r.H = simplefixgo.NewAcceptorHandler(ctx, "35", cfg.BufferSize)
 		if cfg.OnHandler != nil {
@@ -149,7 +156,7 @@ func NewStepRig(cfg StepCfg) (*StepRig, error) {
 		if lim == nil {
 			lim = &session.IntLimits{Min: 5, Max: 60}
 		}
-		r.S, err = session.NewAcceptorSession(Opts(), r.H, &session.LogonSettings{
+		r.S, err = session.NewAcceptorSession(opts, r.H, &session.LogonSettings{
 			LogonTimeout: 30 * time.Second, HeartBtLimits: lim, CloseTimeout: cfg.CloseTimeout,
 		}, func(ls *session.LogonSettings) error { return cfg.OnLogon(ls) }, cfg.Counter, cfg.Messages)
 	} else {
@@ -161,7 +168,7 @@ func NewStepRig(cfg StepCfg) (*StepRig, error) {
 		if hb == 0 {
 			hb = 10
 		}
-		r.S, err = session.NewInitiatorSession(r.H, Opts(), &session.LogonSettings{
+		r.S, err = session.NewInitiatorSession(r.H, opts, &session.LogonSettings{
 			TargetCompID: PeerID, SenderCompID: LibID, HeartBtInt: hb, EncryptMethod: "0",
 			Username: cfg.Username, Password: cfg.Password, CloseTimeout: cfg.CloseTimeout, LogonTimeout: 30 * time.Second,
 		}, cfg.Counter, cfg.Messages)
@@ -269,7 +276,16 @@ func (r *StepRig) since(m mark) StepResult {
 }
 
 func (r *StepRig) sample(res *StepResult, t0 time.Time) {
-	res.Logged = r.S.IsLogged()
+	// IsLogged takes the session's state lock: a library that is stuck while holding it must not hang the harness
+	lg := make(chan bool, 1)
+	go func() { lg <- r.S.IsLogged() }()
+	select {
+	case v := <-lg:
+		res.Logged = v
+	case <-time.After(2 * time.Second):
+		res.TimedOut = true
+		res.StateLocked = true
+	}
 	res.CtxErr = r.S.Context().Err()
 	select {
 	case <-r.runDone:
